@@ -70,6 +70,9 @@ func JsonFunction(name string) ZlispUserFunction {
 
 		switch name {
 		case "json":
+			if selfContaining(args[0]) {
+				return SexpNull, fmt.Errorf("json: %v", errSelfContaining)
+			}
 			str := SexpToJson(args[0])
 			return &SexpRaw{Val: []byte(str)}, nil
 		case "unjson":
@@ -79,6 +82,9 @@ func JsonFunction(name string) ZlispUserFunction {
 			}
 			return JsonToSexp([]byte(raw.Val), env)
 		case "msgpack":
+			if selfContaining(args[0]) {
+				return SexpNull, fmt.Errorf("msgpack: %v", errSelfContaining)
+			}
 			by, _ := SexpToMsgpack(args[0])
 			return &SexpRaw{Val: []byte(by)}, nil
 		case "unmsgpack":
@@ -570,7 +576,7 @@ func toGoHelper(env *Zlisp, name string, arg Sexp) (Sexp, error) {
 	case *SexpReflect:
 		return SexpNull, fmt.Errorf("ToGoFunction (togo) error: value must be a hash or defmap; we see SexpReflect '%[1]T'", asHash.Val.Interface())
 	default:
-		return SexpNull, fmt.Errorf("ToGoFunction (togo) error: value must be a hash or defmap; we see '%[1]T'/val=%#[1]v", arg)
+		return SexpNull, fmt.Errorf("ToGoFunction (togo) error: value must be a hash or defmap; we see '%T'/val=%s", arg, showForErr(arg))
 	case *SexpHash:
 		tn := asHash.TypeName
 		//vv("ToGo: SexpHash for tn='%s', shadowSet='%v'", tn, asHash.ShadowSet)
